@@ -168,14 +168,27 @@ func depsOf(ident *ast.Identifier, deps packageDeclsDeps) []*ast.Identifier {
 }
 
 func checkDepsPath(path []*ast.Identifier, deps packageDeclsDeps) []*ast.Identifier {
+	return checkDepsPathFrom(path, deps, false)
+}
+
+// checkDepsPathFrom returns a path of dependencies that starts with path and
+// ends with an identifier already in the path, or nil if there is none. If
+// first is true, only the paths that end with the first identifier of path
+// are returned: a loop among functions that does not go through the
+// variable being initialized is a recursion, not an initialization loop.
+func checkDepsPathFrom(path []*ast.Identifier, deps packageDeclsDeps, first bool) []*ast.Identifier {
 	last := path[len(path)-1]
+depsLoop:
 	for _, dep := range depsOf(last, deps) {
-		for _, p := range path {
+		for i, p := range path {
 			if p.Name == dep.Name {
+				if first && i > 0 {
+					continue depsLoop
+				}
 				return append(path, dep)
 			}
 		}
-		loopPath := checkDepsPath(append(path, dep), deps)
+		loopPath := checkDepsPathFrom(append(path, dep), deps, first)
 		if loopPath != nil {
 			return loopPath
 		}
@@ -215,7 +228,7 @@ func detectVarsLoop(vars []*ast.Var, deps packageDeclsDeps) error {
 	for _, v := range vars {
 		for _, left := range v.Lhs {
 			path := []*ast.Identifier{left}
-			loopPath := checkDepsPath(path, deps)
+			loopPath := checkDepsPathFrom(path, deps, true)
 			if loopPath != nil {
 				var msg strings.Builder
 				msg.WriteString("typechecking loop involving " + v.String() + "\n")
